@@ -22,6 +22,7 @@ import (
 	"strings"
 	"sync"
 	"sync/atomic"
+	"syscall"
 	"time"
 )
 
@@ -468,7 +469,7 @@ func (r *Run) Finish() {
 	r.mu.Lock()
 	defer r.mu.Unlock()
 	r.sh.States = int64(len(r.states))
-	r.sh.WallS = time.Since(r.start).Seconds()
+	r.sh.WallS = realNow().Sub(r.start).Seconds()
 	r.sh.Done = true
 	sort.SliceStable(r.sh.Violations, func(i, j int) bool {
 		return len(r.sh.Violations[i].Case) < len(r.sh.Violations[j].Case)
@@ -556,4 +557,15 @@ func Catch(f func()) (panicked string) {
 	f()
 
 	return ""
+}
+
+// realNow is the real wall clock, also inside a testing/synctest bubble (where
+// time.Now is virtual).
+func realNow() time.Time {
+	var tv syscall.Timeval
+	if err := syscall.Gettimeofday(&tv); err != nil {
+		return time.Now()
+	}
+
+	return time.Unix(tv.Sec, tv.Usec*1000)
 }
